@@ -1687,3 +1687,213 @@ Proof.
   - specialize (H c (or_introl eq_refl)). destruct (snd c); [congruence|simpl; lia].
   - apply IH. intros; apply H; right; assumption.
 Qed.
+
+(* ================================================================== controller objects *)
+(* objects of one name are one object *)
+Definition consistent (l : list cobj) : Prop :=
+  forall a b, In a l -> In b l -> fst a = fst b -> a = b.
+
+Lemma consistent_equiv l1 l2 : (forall c, In c l1 <-> In c l2) -> consistent l1 -> consistent l2.
+Proof. intros H C a b Ha Hb. apply C; apply H; assumption. Qed.
+
+Lemma assoc_None {A} (l : list (string * A)) k : assoc k l = None <-> ~ In k (map fst l).
+Proof.
+  induction l as [|[k' v] l IH]; simpl; [tauto|].
+  destruct (String.eqb_spec k' k) as [->|Hne].
+  - split; [discriminate|]. intros H. exfalso. apply H. left. reflexivity.
+  - rewrite IH. split; [intros H [E|Hin]; [congruence|exact (H Hin)]|intros H Hin; apply H; right; exact Hin].
+Qed.
+
+Lemma pdict_set_same {A} (d : list (string * A)) k v : assoc k d = Some v -> pdict_set d k v = d.
+Proof.
+  induction d as [|[k' v'] d IH]; simpl; [discriminate|].
+  destruct (String.eqb_spec k' k) as [->|_]; [intros [= ->]; reflexivity|intros H; rewrite (IH H); reflexivity].
+Qed.
+
+Lemma pdict_set_fresh {A} (d : list (string * A)) k v : assoc k d = None -> pdict_set d k v = d ++ [(k, v)].
+Proof.
+  induction d as [|[k' v'] d IH]; simpl; [reflexivity|].
+  destruct (String.eqb_spec k' k) as [->|_]; [discriminate|intros H; rewrite (IH H); reflexivity].
+Qed.
+
+Lemma obj_set_add_present s c i : assoc (fst c) s = Some i -> obj_set_add s c = s.
+Proof.
+  intros H. unfold obj_set_add. replace (existsb (fun d => String.eqb (fst d) (fst c)) s) with true; [reflexivity|].
+  symmetry. apply existsb_exists. exists (fst c, i). split; [apply assoc_Some_In; exact H|apply String.eqb_refl].
+Qed.
+
+Lemma obj_set_add_fresh (s : list cobj) c : assoc (fst c) s = None -> obj_set_add s c = s ++ [c].
+Proof.
+  intros H. unfold obj_set_add. replace (existsb (fun d => String.eqb (fst d) (fst c)) s) with false; [reflexivity|].
+  symmetry. apply not_true_iff_false. intros E. apply existsb_exists in E. destruct E as (d & Hd & E).
+  apply String.eqb_eq in E. apply assoc_None in H. apply H. rewrite <- E. apply in_map. exact Hd.
+Qed.
+
+Lemma dict_of_target (t : list (string * Z)) : forall d : list (string * Z),
+  NoDup (map fst (d ++ t)) ->
+  fold_left (fun (d : list (string * Z)) (c : string * Z) => pdict_set d (fst c) (snd c)) t d = d ++ t.
+Proof.
+  induction t as [|[k v] t IH]; intros d H; simpl; [rewrite app_nil_r; reflexivity|].
+  rewrite pdict_set_fresh.
+  - rewrite IH; rewrite <- app_assoc; [reflexivity|exact H].
+  - apply assoc_None. rewrite map_app in H. simpl in H. apply NoDup_remove_2 in H.
+    intros Hin. apply H. apply in_or_app. left. exact Hin.
+Qed.
+
+Definition gen_merge_step (acc : option (list (string * Z) * list (string * Z))) (controller : string * Z) :=
+  match acc with
+  | None => None
+  | Some (known, target) =>
+      let other := assoc (fst controller) known in
+      if (match other with Some o => negb (o =? snd controller) | None => false end) then None
+      else Some (pdict_set known (fst controller) (snd controller), obj_set_add target controller)
+  end.
+
+Lemma gen_merge_fold : forall source t,
+  match fold_left gen_merge_step source (Some (t, t)) with
+  | None => None
+  | Some (_, target) => Some target
+  end = m_merge t source.
+Proof.
+  induction source as [|c r IH]; intros t; simpl; [reflexivity|].
+  destruct (assoc (fst c) t) as [i|] eqn:E.
+  - destruct (Z.eqb_spec i (snd c)) as [->|Hne]; simpl.
+    + rewrite pdict_set_same by exact E. rewrite (obj_set_add_present _ _ _ E). apply IH.
+    + clear IH. induction r as [|x r IHr]; simpl; [reflexivity|exact IHr].
+  - simpl. rewrite pdict_set_fresh by exact E. rewrite obj_set_add_fresh by exact E.
+    destruct c as [n i]. apply IH.
+Qed.
+
+(* tie A: the generated merge_controllers is the hand-written one (on a set of controllers, i.e.
+   a target with pairwise distinct names) *)
+Lemma gen_merge_controllers target source :
+  NoDup (map fst target) -> merge_controllers target source = m_merge target source.
+Proof.
+  intros H. unfold merge_controllers. cbv zeta.
+  rewrite (dict_of_target target []) by exact H. simpl app.
+  exact (gen_merge_fold source target).
+Qed.
+
+Lemma m_merge_spec : forall source target,
+  NoDup (map fst target) ->
+  (forall l, m_merge target source = Some l ->
+     consistent (target ++ source) /\ NoDup (map fst l) /\ forall c, In c l <-> In c (target ++ source)) /\
+  (consistent (target ++ source) -> exists l, m_merge target source = Some l).
+Proof.
+  induction source as [|c r IH]; intros target Hnd.
+  - simpl. rewrite app_nil_r. split.
+    + intros l [= <-]. split; [|split; [exact Hnd|tauto]].
+      intros a b Ha Hb E. destruct a as [n i], b as [m j]. simpl in E. subst m.
+      pose proof (assoc_In_NoDup _ _ _ Hnd Ha). pose proof (assoc_In_NoDup _ _ _ Hnd Hb). congruence.
+    + eauto.
+  - simpl. destruct (assoc (fst c) target) as [i|] eqn:E.
+    + pose proof (assoc_Some_In _ _ _ E) as Hin.
+      destruct (Z.eqb_spec i (snd c)) as [->|Hne].
+      * assert (Hc : In c target) by (destruct c; exact Hin).
+        assert (Heq : forall x, In x (target ++ r) <-> In x (target ++ c :: r)).
+        { intros x. rewrite !in_app_iff. simpl. split; [tauto|]. intros [H|[<-|H]]; auto. }
+        destruct (IH target Hnd) as [IH1 IH2]. split.
+        -- intros l Hl. destruct (IH1 l Hl) as (C & N & I). split; [eapply consistent_equiv; eauto|].
+           split; [exact N|]. intros x. rewrite I. apply Heq.
+        -- intros C. apply IH2. eapply consistent_equiv; [|exact C]. intros x. symmetry. apply Heq.
+      * split; [discriminate|]. intros C. exfalso. apply Hne.
+        assert (H : (fst c, i) = c).
+        { apply C; [apply in_or_app; left; exact Hin|apply in_or_app; right; left; reflexivity|reflexivity]. }
+        rewrite <- H. reflexivity.
+    + assert (Hnd' : NoDup (map fst (target ++ [c]))).
+      { rewrite map_app. simpl. apply NoDup_app_disj; [exact Hnd|constructor; [intros []|constructor]|].
+        intros x Hx [<-|[]]. apply assoc_None in E. contradiction. }
+      destruct (IH (target ++ [c]) Hnd') as [IH1 IH2]. rewrite <- app_assoc in IH1, IH2. simpl in IH1, IH2.
+      split; [exact IH1|exact IH2].
+Qed.
+
+Section otree_induction.
+  Variable P : otree -> Prop.
+  Hypothesis HN : forall k, Forall P k -> P (ONode k).
+  Hypothesis HC : forall c ms, Forall P ms -> P (OCat c ms).
+  Fixpoint otree_ind' (t : otree) : P t :=
+    match t with
+    | ONode k => HN k ((fix go (l : list otree) : Forall P l :=
+                          match l with [] => Forall_nil _ | x :: r => Forall_cons x (otree_ind' x) (go r) end) k)
+    | OCat c ms => HC c ms ((fix go (l : list otree) : Forall P l :=
+                               match l with [] => Forall_nil _ | x :: r => Forall_cons x (otree_ind' x) (go r) end) ms)
+    end.
+End otree_induction.
+
+Definition ctrl_spec (t : otree) : Prop :=
+  (forall l, all_controllers t = Some l ->
+     consistent (objs_of t) /\ NoDup (map fst l) /\ forall c, In c l <-> In c (objs_of t)) /\
+  (consistent (objs_of t) -> exists l, all_controllers t = Some l).
+
+Lemma merge_fold_none ts : fold_left (fun acc k => merge_step acc (all_controllers k)) ts None = None.
+Proof. induction ts; simpl; auto. Qed.
+
+Lemma merge_fold_spec : forall ts acc base,
+  Forall ctrl_spec ts -> NoDup (map fst acc) -> (forall c, In c acc <-> In c base) ->
+  (forall l, fold_left (fun a k => merge_step a (all_controllers k)) ts (Some acc) = Some l ->
+     consistent (base ++ flat_map objs_of ts) /\ NoDup (map fst l) /\
+     forall c, In c l <-> In c (base ++ flat_map objs_of ts)) /\
+  (consistent (base ++ flat_map objs_of ts) ->
+     exists l, fold_left (fun a k => merge_step a (all_controllers k)) ts (Some acc) = Some l).
+Proof.
+  induction ts as [|t ts IH]; intros acc base HF Hnd Hb.
+  - simpl. rewrite app_nil_r. split; [|eauto].
+    intros l [= <-]. split; [|split; [exact Hnd|exact Hb]].
+    apply (consistent_equiv acc); [exact Hb|].
+    intros a b Ha Hc E. destruct a as [n i], b as [m j]. simpl in E. subst m.
+    pose proof (assoc_In_NoDup _ _ _ Hnd Ha). pose proof (assoc_In_NoDup _ _ _ Hnd Hc). congruence.
+  - inversion HF as [|? ? [Ht1 Ht2] HF']; subst. simpl fold_left. simpl flat_map.
+    assert (Hsub : consistent (base ++ objs_of t ++ flat_map objs_of ts) -> consistent (objs_of t)).
+    { intros C a b Ha Hc. apply C; apply in_or_app; right; apply in_or_app; left; assumption. }
+    destruct (all_controllers t) as [s|] eqn:Es.
+    + destruct (Ht1 s eq_refl) as (Ct & Ns & Is).
+      destruct (m_merge_spec s acc Hnd) as [M1 M2].
+      change (merge_step (Some acc) (Some s)) with (m_merge acc s).
+      destruct (m_merge acc s) as [a'|] eqn:Em.
+      * destruct (M1 a' eq_refl) as (Ca & Na & Ia).
+        assert (Hb' : forall c, In c a' <-> In c (base ++ objs_of t)).
+        { intros c. rewrite Ia, !in_app_iff, Hb, Is. tauto. }
+        destruct (IH a' (base ++ objs_of t) HF' Na Hb') as [I1 I2].
+        rewrite <- app_assoc in I1, I2. split; [exact I1|exact I2].
+      * rewrite merge_fold_none. split; [discriminate|]. intros C. exfalso.
+        destruct M2 as (l & Hl); [|discriminate].
+        apply (consistent_equiv (base ++ objs_of t)).
+        -- intros c. rewrite !in_app_iff, Hb, Is. tauto.
+        -- intros a b Ha Hc. apply C; rewrite app_assoc; apply in_or_app; left; assumption.
+    + change (merge_step (Some acc) None) with (@None (list cobj)). rewrite merge_fold_none. split; [discriminate|].
+      intros C. destruct (Ht2 (Hsub C)) as (l & Hl). discriminate.
+Qed.
+
+Lemma all_controllers_spec : forall t, ctrl_spec t.
+Proof.
+  induction t as [k IH|c ms IH] using otree_ind'.
+  - unfold ctrl_spec. simpl.
+    destruct (merge_fold_spec k [] [] IH ltac:(constructor) ltac:(tauto)) as [H1 H2]. simpl in H1, H2.
+    split; [exact H1|exact H2].
+  - unfold ctrl_spec. simpl.
+    assert (Hnd : NoDup (map fst [c])) by (constructor; [intros []|constructor]).
+    destruct (merge_fold_spec ms [c] [c] IH Hnd ltac:(tauto)) as [H1 H2]. simpl in H1, H2.
+    split; [exact H1|exact H2].
+Qed.
+
+(* T16j: a formula is accepted iff controllers of one name are one object; then the controllers
+   handed to the central controller have pairwise distinct names and are exactly those met *)
+Lemma accepted_iff_consistent t :
+  (exists l, all_controllers t = Some l) <-> consistent (objs_of t).
+Proof.
+  destruct (all_controllers_spec t) as [H1 H2]. split; [|exact H2].
+  intros (l & Hl). apply (H1 l Hl).
+Qed.
+
+Lemma accepted_distinct_names t l :
+  all_controllers t = Some l ->
+  NoDup (map fst l) /\ (forall c, In c l <-> In c (objs_of t)) /\ consistent (objs_of t).
+Proof. intros H. destruct (all_controllers_spec t) as [H1 _]. destruct (H1 l H) as (C & N & I). auto. Qed.
+
+Lemma refused_witness t :
+  all_controllers t = None <-> ~ consistent (objs_of t).
+Proof.
+  pose proof (accepted_iff_consistent t) as H. destruct (all_controllers t) as [l|].
+  - split; [discriminate|]. intros N. exfalso. apply N. apply H. eauto.
+  - split; [|reflexivity]. intros _ C. apply H in C. destruct C as (l & Hl). discriminate.
+Qed.
